@@ -661,3 +661,160 @@ Proof.
   { eexists. split; [vm_compute; reflexivity|]. split; vm_compute; reflexivity. }
   repeat split; vm_compute; reflexivity.
 Qed.
+
+(* ------------------------------------------------------------------ the slots of the text
+   pipeline are what the storage-level scan twins read (Proofs/ScanSlotsProofs.v).
+   [scan_slots sc d] (Model/PipelineS.v) is the stream the nodes of a SELECT with fields consume;
+   the scan node of Model/ScanIO.v is the twin of scan_plan.go over the storage instructions.
+   For every scan node with sorted distinct point-read keys -- in particular the node
+   FilterOptimizer.Optimize builds for any region, [scan_of_region r] -- every strictly sorted
+   store, every filter oracle, both modes, every batch size >= 1: BuildPlan and the caller's loop
+   over that node, from the fault-free state, return the pairs among the slots that pass the
+   filter, in slot order (batch mode: non-empty batches that concatenate to it), and read inside
+   the region (C18's reads_ok).  The empty slots of a multi-get are the listed keys that are not
+   stored: one Get each, nothing yielded. *)
+From KV Require Import Model.FilterOpt Model.ScanSem Model.ScanIO Model.Storage
+                       Proofs.StorageProofs Proofs.ScanSemProofs Proofs.ScanSlotsProofs.
+Local Open Scope list_scope.
+
+
+Theorem slots_pairs_are_the_region : forall sc d, ssorted d -> keys_ok (PScan sc) ->
+  somes (scan_slots sc d) = filter (fun kv => covers (region_of sc) (fst kv)) d.
+Proof. exact somes_scan_slots. Qed.
+Print Assumptions slots_pairs_are_the_region.
+
+Theorem slots_scan_rows_row :
+  forall (flt : kvp -> bool) (fuel : nat) (sc : scan) (d : store) (l0 : list scall),
+  ssorted d -> keys_ok (PScan sc) -> List.length d + plan_keys (PScan sc) < fuel ->
+  exists l, run_read (select_rows true flt fuel (PScan sc)) (SState d l0 None)
+            = (Storage.Ok (filter flt (somes (scan_slots sc d))), SState d (l0 ++ l) None)
+            /\ reads_ok sc l.
+Proof. exact slots_scan_rows_row_lemma. Qed.
+Print Assumptions slots_scan_rows_row.
+
+Theorem slots_scan_rows_batch :
+  forall (flt : kvp -> bool) (B fuel : nat) (sc : scan) (d : store) (l0 : list scall),
+  1 <= B -> ssorted d -> keys_ok (PScan sc) -> List.length d + plan_keys (PScan sc) < fuel ->
+  exists outs l, run_read (select_batches true flt B fuel (PScan sc)) (SState d l0 None)
+                 = (Storage.Ok outs, SState d (l0 ++ l) None)
+                 /\ List.concat outs = filter flt (somes (scan_slots sc d))
+                 /\ Forall (@ScanSemProofs.nonempty kvp) outs
+                 /\ reads_ok sc l.
+Proof. exact slots_scan_rows_batch_lemma. Qed.
+Print Assumptions slots_scan_rows_batch.
+
+(* the node of a region, with the filter that keeps every pair: exactly the slots' pairs *)
+Theorem slots_unfiltered_row :
+  forall (fuel : nat) (r : region) (d : store),
+  ssorted d -> List.length d + plan_keys (PScan (scan_of_region r)) < fuel ->
+  exists l, run_read (select_rows true (fun _ => true) fuel (PScan (scan_of_region r))) (sinit d None)
+            = (Storage.Ok (somes (scan_slots (scan_of_region r) d)), SState d l None)
+            /\ reads_ok (scan_of_region r) l.
+Proof. exact slots_unfiltered_row_lemma. Qed.
+Print Assumptions slots_unfiltered_row.
+
+Theorem slots_unfiltered_batch :
+  forall (B fuel : nat) (r : region) (d : store),
+  1 <= B -> ssorted d -> List.length d + plan_keys (PScan (scan_of_region r)) < fuel ->
+  exists outs l, run_read (select_batches true (fun _ => true) B fuel (PScan (scan_of_region r))) (sinit d None)
+                 = (Storage.Ok outs, SState d l None)
+                 /\ List.concat outs = somes (scan_slots (scan_of_region r) d)
+                 /\ Forall (@ScanSemProofs.nonempty kvp) outs
+                 /\ reads_ok (scan_of_region r) l.
+Proof. exact slots_unfiltered_batch_lemma. Qed.
+Print Assumptions slots_unfiltered_batch.
+
+(* the consumer of the slots: every shape of select_stmt_text runs the scan's read loop WITH the
+   WHERE filter over the slots (Model/ScanProj.v); the storage-level node carries the filter as
+   the oracle [flt].  When the filter does not fail on the stored pairs, both keep the same
+   pairs (batch mode: the same concatenation) *)
+Theorem scan_node_filter_agree_row :
+  forall (frow : kvp -> Value.res bool) (flt : kvp -> bool) (fuel : nat) (sc : scan) (d : store),
+  ssorted d -> keys_ok (PScan sc) -> List.length d + plan_keys (PScan sc) < fuel ->
+  (forall kv, In kv d -> frow kv = Value.Ok (flt kv)) ->
+  exists rows l,
+    run_read (select_rows true flt fuel (PScan sc)) (sinit d None) = (Storage.Ok rows, SState d l None) /\
+    ScanProj.drain_row frow (fun kv => Value.Ok kv) (scan_slots sc d) = Value.Ok rows /\
+    reads_ok sc l.
+Proof. exact scan_node_filter_agree_row_lemma. Qed.
+Print Assumptions scan_node_filter_agree_row.
+
+Theorem scan_node_filter_agree_batch :
+  forall (frow : kvp -> Value.res bool) (fbatch : list kvp -> Value.res (list bool)) (flt : kvp -> bool)
+         (B fuel : nat) (sc : scan) (d : store) (outs' : list (list kvp)),
+  1 <= B -> ssorted d -> keys_ok (PScan sc) -> List.length d + plan_keys (PScan sc) < fuel ->
+  (forall kv, In kv d -> frow kv = Value.Ok (flt kv)) ->
+  (forall c bs, fbatch c = Value.Ok bs -> Forall2 (fun kv b => frow kv = Value.Ok b) c bs) ->
+  ScanProj.drain_batch fbatch (fun c => Value.Ok c) B (scan_slots sc d) = Value.Ok outs' ->
+  exists outs l,
+    run_read (select_batches true flt B fuel (PScan sc)) (sinit d None) = (Storage.Ok outs, SState d l None) /\
+    List.concat outs = List.concat outs' /\
+    reads_ok sc l.
+Proof. exact scan_node_filter_agree_batch_lemma. Qed.
+Print Assumptions scan_node_filter_agree_batch.
+
+(* one pass of the scan's read loop (the inner `for i < PlanBatchSize` of Batch) consumes exactly
+   the next n slots: one Get per slot for a multi-get (empty slot = key absent, still one
+   iteration), one Next per slot for a cursor scan plus the Next that ends it *)
+Theorem mget_chunk_consumes_slots : forall n keys idx acc d,
+  rspec (mget_read_chunk n keys idx acc) d (fun x l =>
+    x = (acc ++ somes (firstn n (scan_slots (SMget keys) d)), skipn n keys,
+         idx + Nat.min n (List.length keys), Nat.ltb (List.length keys) n)
+    /\ l = map CGet (firstn n keys)).
+Proof. exact mget_chunk_consumes_slots_lemma. Qed.
+Print Assumptions mget_chunk_consumes_slots.
+
+Theorem cursor_chunk_consumes_slots : forall sc n snap rest acc d,
+  rspec (cursor_read_chunk sc n snap rest acc) d (fun x l =>
+    let sl := take_until (scan_stop sc) rest in
+    fst (fst x) = acc ++ firstn n sl /\
+    snd x = Nat.ltb (List.length sl) n /\
+    csnap (snd (fst x)) = snap /\
+    (snd x = false -> crest (snd (fst x)) = skipn n rest) /\
+    next_keys l = map fst (firstn n sl) ++
+                  (if Nat.ltb (List.length sl) n then map fst (firstn 1 (skipn (List.length sl) rest)) else [])).
+Proof. exact cursor_chunk_consumes_slots_lemma. Qed.
+Print Assumptions cursor_chunk_consumes_slots.
+
+(* the statement runner of Model/ScanIO.v (which counts rows) against select_stmt_text, projection
+   shape (no aggregate, no ORDER BY node, no LIMIT): with the text's WHERE filter as the oracle it
+   returns as many rows as select_stmt_text, one by one in row mode, in non-empty batches of that
+   total in batch mode.  (The aggregate / order / limit shapes are not related: ScanIO counts
+   their rows under an oracle for the GROUP BY key.) *)
+From KV Require Import Model.PipelineIO.
+Theorem text_rows_count_proj :
+  forall (fo : fops) (re : bytes -> bytes -> Value.res bool) (fmt_v : F fo -> string) (ag : aggops fo)
+         (pi pf : bytes -> option Z)
+         (gkey : kvp -> bytes) (B fuel : nat) (q : string) (pl : splanned fo) (d : store) (rows : list Order.row),
+  plan_stmt_text fo re fmt_v q = STOk pl -> sp_shape fo pl = SProj ->
+  select_stmt_text fo re fmt_v ag pi pf q d MRow = TOk rows ->
+  1 <= B -> ssorted d -> List.length d + plan_keys (PScan (sp_scan fo pl)) < fuel ->
+  let flt := Pipeline.filter_of fo re (q_where fo (sp_q fo pl)) in
+  text_fplan fo pl = FProj (PScan (sp_scan fo pl)) /\
+  fst (ScanIO.run_stmt true flt gkey B fuel RowMode (StSelect (text_fplan fo pl)) (sinit d None))
+    = Storage.Ok (repeat 1 (List.length rows)) /\
+  exists sizes, fst (ScanIO.run_stmt true flt gkey B fuel BatchMode (StSelect (text_fplan fo pl)) (sinit d None))
+                = Storage.Ok sizes /\ list_sum sizes = List.length rows /\ Forall (fun k => 1 <= k) sizes.
+Proof. exact text_rows_count_proj_lemma. Qed.
+Print Assumptions text_rows_count_proj.
+
+(* non-vacuity: a multi-get with a duplicate and an absent key, and a prefix scan *)
+Example slots_mget_nonvacuous :
+  let d := [("a","1");("ab","2");("b","3");("c","4")]%string in
+  let sc := scan_of_region (RMget ["c";"zz";"a";"c"]%string) in
+  sc = SMget ["a";"c";"zz"]%string /\
+  scan_slots sc d = [Some ("a","1"); Some ("c","4"); None]%string /\
+  run_read (select_rows true (fun _ => true) 10 (PScan sc)) (sinit d None)
+  = (Storage.Ok [("a","1");("c","4")]%string, SState d [CGet "a"; CGet "c"; CGet "zz"]%string None) /\
+  run_read (select_batches true (fun _ => true) 2 10 (PScan sc)) (sinit d None)
+  = (Storage.Ok [[("a","1");("c","4")]]%string, SState d [CGet "a"; CGet "c"; CGet "zz"]%string None).
+Proof. vm_compute. repeat split; reflexivity. Qed.
+
+Example slots_prefix_nonvacuous :
+  let d := [("a","1");("ab","2");("b","3");("c","4")]%string in
+  let sc := scan_of_region (RPrefix "a"%string) in
+  scan_slots sc d = [Some ("a","1"); Some ("ab","2")]%string /\
+  run_read (select_rows true (fun kv => String.eqb (snd kv) "2") 10 (PScan sc)) (sinit d None)
+  = (Storage.Ok [("ab","2")]%string,
+     SState d [CCursor; CSeek "a"; CCursor; CSeek "a"; CNext (Some "a"); CNext (Some "ab"); CNext (Some "b")]%string None).
+Proof. vm_compute. repeat split; reflexivity. Qed.
